@@ -117,6 +117,7 @@ CONCRETISERS = {
     "feeder.FeedOnce": _FEED,
     "witness.Proof).Marshal": ("internal/witness", "zz_verif_replay_test.go", "replay/proof_replay_test.go", "TestVerifReplayProof", lambda m: {"K": int(m.get("gk", 0)) if isinstance(m.get("gk", 0), int) else 0}),
     "witness.Proof).Unmarshal": ("internal/witness", "zz_verif_replay_test.go", "replay/proof_replay_test.go", "TestVerifReplayProof", lambda m: {"K": int(m.get("gk", 0))}),
+    "bastion.readLine": ("internal/feeder/bastion", "zz_verif_replay_test.go", "replay/parsebody_replay_test.go", "TestVerifReplayParseBody", lambda m: {"any": True}),
     "bastion.parseBody": ("internal/feeder/bastion", "zz_verif_replay_test.go", "replay/parsebody_replay_test.go", "TestVerifReplayParseBody", lambda m: {"any": True}),
     "sumdb.FeedLog$1": _SUMDB,
     "sumdb.FeedLog$2": _SUMDB,
